@@ -95,6 +95,8 @@ def c02(res: CheckResult) -> None:
     def_unit(res, "inherited postconditions incl. overrides under foreign decorators: calls judged against the "
                   "effective conjunction for all truth assignments", list(DF.fam_foreign_hier(res.tier, rng)), ic,
              verdicts=True, rng=rng)
+    def_unit(res, "special methods (__call__) inherit postconditions like any method",
+             list(DF.fam_dunder(res.tier, rng)), ic, verdicts=True, rng=rng)
     _passive(res)
 
 
@@ -242,6 +244,8 @@ def c04(res: CheckResult) -> None:
              list(DF.fam_hier_small(res.tier, rng)), ic, verdicts=True, rng=rng)
     def_unit(res, "special methods (__call__) in hierarchies: contracts inherited and invariants checked like public methods",
              list(DF.fam_dunder(res.tier, rng)), ic, verdicts=True, rng=rng)
+    def_unit(res, "async def members in hierarchies and under invariants of every check_on combination",
+             list(DF.fam_async_members(res.tier, rng)), ic, verdicts=True, rng=rng)
     def_unit(res, "invariant lists along definition histories (every check_on combination): which members check them",
              list(DF.fam_inv_lists(res.tier, rng)), ic, verdicts=True, rng=rng)
     def_unit(res, "wrap table: which members of a class and of its sub-classes check the accumulated invariants",
@@ -276,6 +280,9 @@ def c18(res: CheckResult) -> None:
              list(DF.fam_foreign_hier(res.tier, rng)), ic, verdicts=True, rng=rng)
     def_unit(res, "invariant lists along definition histories (every check_on combination), hand evaluation vs calls",
              list(DF.fam_inv_lists(res.tier, rng)), ic, verdicts=True, rng=rng)
+    def_unit(res, "async def members in hierarchies and under invariants of every check_on combination",
+             list(DF.fam_async_members(res.tier, rng)), ic, verdicts=True, rng=rng)
+    def_unit(res, "special methods (__call__) in hierarchies", list(DF.fam_dunder(res.tier, rng)), ic, verdicts=True, rng=rng)
     def_unit(res, "registration hook: classes in modules with assorted names, with and without the metaclass",
              list(DF.fam_modules(res.tier, rng)), ic, rng=rng)
 
